@@ -249,13 +249,15 @@ class SpecEnv:
                 for t, x in zip(tgt.elts, v.items):
                     self.env[t.id] = x
 
-    def _eval(self, node, p):
+    def _eval(self, node, p, frame_vars=None):
         ex = self.ex
         q = Path()
         q.pc = p.pc
         q.heap, q.sigma, q.cells = p.heap, p.sigma, dict(p.cells)
         q.events = p.events
         fr = Frame(self.fi, None, dict(self.env))
+        if frame_vars:
+            fr.vars.update(frame_vars)        # names bound by an enclosing comprehension stay visible inside old(...)
         fr.vars["__specenv__"] = self
         q.frames = [fr]
         saved = ex.spec
